@@ -887,15 +887,7 @@ func (g *gen) fillLit(o *SOp, dst *LExp, t *Type) *SOp {
 		o.Elems = append(o.Elems, LitElem{P: c.path, R: *r})
 	}
 	// (positional operands of the form `pa[i].f` / `&pa[i]` crashed the compiler until commit 15ed387: F04-21; no restriction any more)
-	// a positional operand `(*pa)[lo:hi]` (slice of an explicitly dereferenced pointer to an array) is rejected by the
-	// interpreter's compiler (open finding F04-24, source template with a class label): such literals are rendered keyed
-	for i := range o.Elems {
-		for r := &o.Elems[i].R; r != nil; r = r.A {
-			if r.K == "sl" && r.L != nil && r.L.K == "d" {
-				o.Keyed = true
-			}
-		}
-	}
+	// (a positional operand `(*pa)[lo:hi]` was rejected by the compiler until commit 790cfa6: F04-24; no restriction any more)
 	if !o.Keyed {
 		// positional literals list their operands in order
 		sortElems(o.Elems)
